@@ -1,7 +1,8 @@
 (* Proofs/NetModes.v — C13: the tracker's mode parser (channel.parseModes, C12's
    [chan_parse_modes]) applied to the mode string and arguments the network model writes for a
    list of changes computes exactly the meaning of those changes ([apply_changes]) — for every
-   line INSIDE THE CLAIM (no argument-taking letter after "-k" or a list mode). *)
+   line INSIDE THE CLAIM (no argument-taking letter after "-k"); list modes b e I with their mask
+   may stand anywhere in the line (D10 fixed: the parser skips the mask). *)
 From Verif Require Import TrackerSpec TrackerSpecFacts StateHandlers Net.
 From Verif Require GoBytes.
 Open Scope Z_scope.
@@ -60,7 +61,7 @@ Proof.
   - destruct add; [|reflexivity]. unfold chan_parse_char. simpl. by rewrite Hg.
   - destruct Hg as [Hx [p Hp]].
     destruct (priv_cases x Hx) as [->|[->|[->|[-> | ->]]]]; unfold chan_parse_char; simpl; rewrite Hp; reflexivity.
-  - done.
+  - destruct (list_cases x Hg) as [->|[-> | ->]]; reflexivity.
 Qed.
 
 (* one change that consumes nothing: the argument list is not looked at *)
@@ -74,7 +75,7 @@ Proof.
   - destruct add; [done|]. reflexivity.
   - destruct add; [done|]. reflexivity.
   - done.
-  - destruct (list_cases x Hg) as [->|[-> | ->]]; reflexivity.
+  - done.
 Qed.
 
 Lemma apply_change_dom c st m k : is_Some (snd (apply_change c st m) !! k) <-> is_Some (snd st !! k).
@@ -132,7 +133,7 @@ Proof.
     pose proof (apply_change_dom c (cm, mem) m k) as D. by rewrite E1 in D. }
   cbv zeta. rewrite render_modes_cons, fold_left_app, apply_changes_cons.
   destruct (chg_leaves m) eqn:El.
-  - (* "-k" or a list mode: its argument stays; nothing after it consumes *)
+  - (* "-k": its argument stays; nothing after it consumes *)
     assert (Hcons : chg_consumes m = false) by (destruct m as [| [] | [] | |]; done).
     rewrite (parse_dirty c cur m op _ cm mem) by done.
     destruct (apply_change c (cm, mem) m) as [cm1 mem1] eqn:E1. simpl fst; simpl snd.
@@ -176,3 +177,49 @@ Proof.
   - destruct (cm_p cm), (cm_s cm), (cm_t cm), (cm_n cm), (cm_m cm), (cm_i cm), (cm_O cm), (cm_z cm), (cm_r cm), (cm_Z cm),
       (cm_key cm), (cm_limit cm =? 0); reflexivity.
 Qed.
+
+(* ---------- regression witness for DESIGN D10 (fixed in state/channel.go) ----------
+   The parser as it stood BEFORE the fix (no case for the list modes b e I): on
+   "MODE #x +bo *!*@* al" the mask is taken for the nick of +o and the +o is lost. *)
+Definition chan_parse_char_old (c : name) (st : pstate) (m : N) : pstate :=
+  let op := ps_op st in let args := ps_args st in let cm := ps_cm st in let mem := ps_mem st in
+  if decide (m = 43%N) then Build_pstate true args cm mem
+  else if decide (m = 45%N) then Build_pstate false args cm mem
+  else if decide (m = 107%N) then
+    match op, args with
+    | true, a :: args' => Build_pstate op args' (set_key a cm) mem
+    | true, [] => st
+    | false, _ => Build_pstate op args (set_key [] cm) mem
+    end
+  else if decide (m = 108%N) then
+    match op, args with
+    | true, a :: args' => Build_pstate op args' (set_limit (atoi a) cm) mem
+    | true, [] => st
+    | false, _ => Build_pstate op args (set_limit 0 cm) mem
+    end
+  else if is_priv_char m then
+    match args with
+    | a :: args' =>
+        match mem !! (c, a) with
+        | Some p => match priv_char m op p with
+                    | Some p' => Build_pstate op args' cm (<[(c, a) := p']> mem)
+                    | None => st
+                    end
+        | None => st
+        end
+    | [] => st
+    end
+  else match chan_flag_char m op cm with
+       | Some cm' => Build_pstate op args cm' mem
+       | None => st
+       end.
+
+Lemma D10_regression :
+  let c := [35; 120]%N in let al := [97; 108]%N in
+  let mem : gmap (name * name) privs := {[ (c, al) := no_privs ]} in
+  let chs := [MList true 98 [42; 33; 42; 64; 42]; MPriv true 111 al]%N in
+  let st0 := Build_pstate false (mode_args chs) no_chanmode mem in
+  option_map cp_o (ps_mem (fold_left (chan_parse_char_old c) (render_modes None chs) st0) !! (c, al)) = Some false
+  /\ option_map cp_o (ps_mem (fold_left (chan_parse_char c) (render_modes None chs) st0) !! (c, al)) = Some true
+  /\ modes_inclaim chs = true.
+Proof. vm_compute. repeat split; reflexivity. Qed.
